@@ -22,7 +22,7 @@ type rgCall struct {
 
 type rgIns struct {
 	Op    string   `json:"op"`
-	Path  string   `json:"path,omitempty"`
+	Path  string   `json:"path"`
 	Hs    []int    `json:"hs"`
 	Ms    []string `json:"ms,omitempty"`
 	Calls []rgCall `json:"calls,omitempty"`
@@ -113,7 +113,7 @@ func rgPaths(prog []rgIns) []string {
 	for _, ins := range prog {
 		if ins.Op == "group" {
 			gp[ins.Path] = true
-		} else if ins.Path != "" {
+		} else if ins.Op != "end" && ins.Op != "autohead" {
 			rp[ins.Path] = true
 		}
 	}
@@ -126,7 +126,7 @@ func rgPaths(prog []rgIns) []string {
 	var rec func(prefix string, d int)
 	rec = func(prefix string, d int) {
 		for r := range rp {
-			if !seen[prefix+r] {
+			if !seen[prefix+r] && strings.HasPrefix(prefix+r, "/") {
 				seen[prefix+r] = true
 				out = append(out, prefix+r)
 			}
@@ -206,11 +206,31 @@ func rgGen(seed int64, n int, args []string, out *json.Encoder) {
 		used := map[string]bool{}
 		prefix := []string{}
 		k := 3 + rng.Intn(12)
+		// A group path may end in "/" with the paths inside it written relative to it ("/s/" + "a", "/s/" + ""), and a
+		// route inside a group may have the empty path: the flat path is the plain concatenation either way. rel says
+		// that the enclosing prefix ends in "/" (so a child must not start with one: "//" would be an empty segment).
+		rel := func() bool { return len(prefix) > 0 && strings.HasSuffix(prefix[len(prefix)-1], "/") }
+		rp := func(abs []string) string {
+			p := abs[rng.Intn(len(abs))]
+			if rel() {
+				if rng.Intn(4) == 0 {
+					return ""
+				}
+				return p[1:]
+			}
+			if len(prefix) > 0 && rng.Intn(10) == 0 {
+				return ""
+			}
+			return p
+		}
 		for j := 0; j < k; j++ {
 			full := func(p string) string { return strings.Join(prefix, "") + p }
 			switch r := rng.Intn(12); {
 			case r < 3 && depth < 4:
-				g := []string{"/g", "/h", "/k"}[rng.Intn(3)]
+				g := []string{"/g", "/h", "/k", "/s/", "/t/"}[rng.Intn(5)]
+				if rel() {
+					g = []string{"g", "h/", "k", "s/"}[rng.Intn(4)]
+				}
 				prog = append(prog, rgIns{Op: "group", Path: g, Hs: hs(rng.Intn(3))})
 				prefix = append(prefix, g)
 				depth++
@@ -219,7 +239,7 @@ func rgGen(seed int64, n int, args []string, out *json.Encoder) {
 				prefix = prefix[:len(prefix)-1]
 				depth--
 			case r < 7:
-				p := []string{"/a", "/b", "/d"}[rng.Intn(3)]
+				p := rp([]string{"/a", "/b", "/d"})
 				ms := [][]string{{"POST"}, {"GET", "POST"}, {"PUT", "DELETE", "GET"}}[rng.Intn(3)]
 				ok := true
 				for _, m := range ms {
@@ -235,21 +255,21 @@ func rgGen(seed int64, n int, args []string, out *json.Encoder) {
 				}
 				prog = append(prog, rgIns{Op: "route", Ms: ms, Path: p, Hs: hs(1 + rng.Intn(3))})
 			case r < 8:
-				p := []string{"/e", "/f"}[rng.Intn(2)]
+				p := rp([]string{"/e", "/f"})
 				if used["ANY"+full(p)] {
 					continue
 				}
 				used["ANY"+full(p)] = true
 				prog = append(prog, rgIns{Op: "any", Path: p, Hs: hs(1 + rng.Intn(2))})
 			case r < 10:
-				p := []string{"/x", "/y", "/z"}[rng.Intn(3)]
+				p := rp([]string{"/x", "/y", "/z"})
 				if used["GET"+full(p)] {
 					continue
 				}
 				used["GET"+full(p)] = true
 				prog = append(prog, rgIns{Op: "get", Path: p, Hs: hs(1 + rng.Intn(3))})
 			case r < 11:
-				p := []string{"/c", "/cc"}[rng.Intn(2)]
+				p := rp([]string{"/c", "/cc"})
 				if used["COMBO"+full(p)] {
 					continue
 				}
